@@ -218,6 +218,10 @@ def make_wallet(ch: Choices, shape: str, cosigners: Sequence[Cosigner], acct: in
         # up to 15 keys (what a p2sh redeem script can hold), a cosigner holding several of them on
         # accounts of its own: from 8 keys on the script is pushed with OP_PUSHDATA2
         n = ch.weighted([(2, 3), (1, 2), (3, 3), (4, 1), (5, 2), (8, 2), (9, 1), (12, 1), (15, 2)], "multi.n")
+        if shape in ("wsh-multi", "sh-wsh-multi") and ch.draw(6, "multi.n.wide") == 5:
+            # a witness script is held to the 10 000-byte script limit, not to the 520 bytes of a stack element or
+            # a p2sh redeem script: 16 keys and up make it longer than 520 (16 keys is OP_16, the widest standard spelling)
+            n = 16  # OP_16 is the widest the size tables and the standard templates spell
         k = ch.weighted([(1, 2), (min(2, n), 1), (n, 1), (1 + ch.draw(n, "multi.k"), 3)], "multi.k-class")
         order = ch.shuffled(range(n_cos), "multi.members")
         members = [(order[j % n_cos], acct + j // n_cos) for j in range(n)]
